@@ -72,9 +72,16 @@ def value_semantics_program():
              "r = []", "foreach x : [1, 2, 3, 4, 5]", "  if x == 2", "    continue", "  endif", "  if x == 4", "    break", "  endif", "  r += [x]", "endforeach", "message('K9008', r)",
              "xs = [1, 2]", "cnt = 0", "foreach x : xs", "  xs += [9]", "  cnt += 1", "endforeach", "message('K9009', cnt)",
              "u = false and [][0] == 1", "message('K9010', u)", "v = true or [][0] == 1", "message('K9011', v)",
-             "set_variable('q', [1])", "w = get_variable('q')", "w += [2]", "message('K9012', get_variable('q'))"]
+             "set_variable('q', [1])", "w = get_variable('q')", "w += [2]", "message('K9012', get_variable('q'))",
+             # a value that was itself produced by += and is then shared
+             "da = {}", "da += {'x': 1}", "db = da", "db += {'y': 2}", "message('K9013', da.keys())", "message('K9014', db.keys())",
+             "la = []", "la += [1]", "lb = la", "lb += [2]", "la += [3]", "message('K9015', la)", "message('K9016', lb)",
+             "sa = 'a'", "sa += 'b'", "sb = sa", "sb += 'c'", "message('K9017', sa)",
+             "dc = {}", "dc += {'x': 1}", "hold = [dc]", "set_variable('sv', dc)", "dc += {'z': 3}", "message('K9018', hold[0].keys())", "message('K9019', get_variable('sv').keys())",
+             "dd = {'p': 1}", "dd += {'q': 2}", "foreach k, v : dd", "  dd += {'r': 3}", "endforeach", "de = dd", "de += {'s': 4}", "message('K9020', dd.keys())"]
     exp = {'K9001': '[1, 2]', 'K9002': '[1, 2, 3]', 'K9003': "['k']", 'K9004': "['j', 'k']", 'K9005': 'x', 'K9006': '1', 'K9007': '[[1], [1]]', 'K9008': '[1, 3]', 'K9009': '2',
-           'K9010': 'false', 'K9011': 'true', 'K9012': '[1]'}
+           'K9010': 'false', 'K9011': 'true', 'K9012': '[1]', 'K9013': "['x']", 'K9014': "['x', 'y']", 'K9015': '[1, 3]', 'K9016': '[1, 2]', 'K9017': 'ab',
+           'K9018': "['x']", 'K9019': "['x']", 'K9020': "['p', 'q', 'r']"}
     return lines, exp
 
 
@@ -195,7 +202,7 @@ def run(REG, tier, seed, jobs):
     ev2, nt2, fails2 = pmap(_rand_chunk, chunked(iter([seed * 6700417 + i for i in range(m)]), 1), jobs)
     rpart = {'name': 'C01/bounded/random-expressions-vs-reference-evaluator', 'function': 'meson setup --backend=none (real parser and interpreter)', 'bound': f'{m} programs x 60 random well-typed expressions of depth <= 4 (integer arithmetic with floor division and modulo, unary minus, comparisons, and / or / not, string concatenation and equality, array index / in / not in, a ternary at the top), printed with minimal parentheses',
              'evaluations': ev2, 'distinct_nontrivial': nt2, 'rule': 'every expression', 'exhaustive': False, 'failures': fails2}
-    return {'parts': [rpart, {'name': 'C01/bounded/programs-vs-language-reference', 'function': 'meson setup --backend=none (real interpreter)', 'bound': f'{len(ex)} expressions (all quotient/modulo sign combinations over {INTS}, all indices of a 4-array, precedence, logic, in/not in, escapes), one value-semantics program (12 checks: aliasing with +=, foreach break/continue, short circuit, get_variable), {len(REJECTED)} programs that must be rejected, range() over start x stop x step in small values including negative and zero ({len(rok)} valid progressions compared element-wise, {len(rbad)} invalid calls that must be rejected)',
+    return {'parts': [rpart, {'name': 'C01/bounded/programs-vs-language-reference', 'function': 'meson setup --backend=none (real interpreter)', 'bound': f'{len(ex)} expressions (all quotient/modulo sign combinations over {INTS}, all indices of a 4-array, precedence, logic, in/not in, escapes), one value-semantics program (20 checks: aliasing with +=, foreach break/continue, short circuit, get_variable), {len(REJECTED)} programs that must be rejected, range() over start x stop x step in small values including negative and zero ({len(rok)} valid progressions compared element-wise, {len(rbad)} invalid calls that must be rejected)',
                        'evaluations': ev, 'distinct_nontrivial': nt, 'rule': 'each expression / check / rejected program counts once', 'exhaustive': False, 'failures': fails}]}
 
 
